@@ -274,7 +274,7 @@ func TestCorpusTruncations(t *testing.T) {
 // Single-byte corruptions of the corpus.
 func TestCorpusCorruptions(t *testing.T) {
 	files := corpus.All()
-	st := harness.Counter("corruptions", "single-byte corruptions of corpus files; quick: 3 values (xor 0x01, xor 0x80, a hash-chosen value) at every position of every 4th file; thorough: all 255 values at every position of every file")
+	st := harness.Counter("corruptions", "single-byte corruptions of corpus files; quick: 3 values (xor 0x01, xor 0x80, a hash-chosen value) at every position of the testdata graphics and every 8th icon; thorough: all 255 values at every position of every file")
 	var n, nt int64
 	thorough := harness.Thorough()
 	for fi, f := range files {
@@ -282,7 +282,7 @@ func TestCorpusCorruptions(t *testing.T) {
 			if fi%harness.Shards() != harness.Shard() {
 				continue
 			}
-		} else if fi%4 != 0 && fi >= len(corpus.Testdata()) {
+		} else if fi%8 != 0 && fi >= len(corpus.Testdata()) {
 			continue
 		}
 		buf := append([]byte{}, f.Data...)
